@@ -80,6 +80,9 @@ def gen_mx(repo):
     out = HEADER % 'include/qdns.h, qremote/conn.c, qremote/qremote.c, qremote/smtproutes.c, lib/ipme.c, lib/dns_helpers.c'
     for k, v in c.items():
         out += 'Definition %s : N := %s%%N.\n' % (k, v)
+    dcert = one(r'clientcertname\s*=\s*"([^"]*)"\s*;\s*clientkeyname\s*=\s*clientcertname\s*;', s, 'smtproutes.c default certificate name')
+    dkey = one(r'faccessat\(\s*controldir_fd\s*,\s*"clientkey\.pem"\s*,\s*R_OK\s*,\s*0\s*\)\s*==\s*0\s*\)\s*clientkeyname\s*=\s*"([^"]*)"\s*;', s, 'smtproutes.c default key name')
+    out += '\nDefinition ROUTE_DEFAULT_CERT : list N := %s.\nDefinition ROUTE_DEFAULT_KEY : list N := %s.\n' % (coq_bytes(c_unescape(dcert)), coq_bytes(c_unescape(dkey)))
     out += '\n(* smtproutes.d keys, in table order *)\nDefinition ROUTE_TAGS : list (list N) :=\n  [' + ';\n   '.join(coq_bytes(c_unescape(t)) for t in taglist) + '].\n'
     return out
 
